@@ -360,7 +360,7 @@ def _extent_agreement(ctx, sess, P, hdr_off_crc, fh_off_crc):
             sites.append(fn.name)
         else:
             # payload: the extent is the current header's payload_length, and the buffer is the one read/written
-            lp = fn.path(strip_casts(a[1]))
+            lp = fn.path(df.resolve_local(fn, a[1], ev.block, ev.idx))
             bp = fn.path(a0)
             io = [e2 for e2 in fn.calls(('jls_bk_fread', 'jls_bk_fwrite')) if fn.path(e2.args[1]) is not None and bp is not None
                   and tuple(fn.path(e2.args[1])) == tuple(bp)]
@@ -371,7 +371,7 @@ def _extent_agreement(ctx, sess, P, hdr_off_crc, fh_off_crc):
                 detail += '; the buffer %s is not the one passed to jls_bk_fread/jls_bk_fwrite in this function' % (str(bp),)
             for e2 in io:
                 if e2.callee == 'jls_bk_fwrite':
-                    wp = fn.path(strip_casts(e2.args[2]))
+                    wp = fn.path(df.resolve_local(fn, e2.args[2], e2.block, e2.idx))
                     if wp is None or lp is None or tuple(wp) != tuple(lp):
                         ok = False
                         detail += '; bytes written (%s) differ from bytes signed' % (str(wp) if wp is not None else show(e2.args[2]))
